@@ -131,7 +131,7 @@ def deleteZeroLengthStreams (d : Doc) : Doc × List ObjId :=
 def COUNT : Bytes := [67, 111, 117, 110, 116]
 def PARENT : Bytes := [80, 97, 114, 101, 110, 116]
 def CONTENTS : Bytes := [67, 111, 110, 116, 101, 110, 116, 115]
-def LENGTH : Bytes := [76, 101, 110, 103, 116, 104]
+def LENGTHE : Bytes := [76, 101, 110, 103, 116, 104]
 
 /-- the `while let Ok(page_tree_id) = page_tree_ref` loop of `delete_pages`. The code has no cycle
 guard: a chain longer than the number of objects revisits an id and never ends — `none` = hang. -/
@@ -180,9 +180,9 @@ def addPageContents (d : Doc) (pageId : ObjId) (content : Bytes) : Outcome (Doc 
       | some (.ref n g) => [.ref n g]
       | some (.arr a) => a
       | _ => []
-    if d.maxId + 1 > U32_MAX then .panic "add" else
+    if d.maxId + 1 > U32_MAXE then .panic "add" else
     let nid : ObjId := (d.maxId + 1, 0)
-    let os1 := d.objects.insert nid (.stream [(LENGTH, .int content.length)] content)
+    let os1 := d.objects.insert nid (.stream [(LENGTHE, .int content.length)] content)
     let d1 := { d with objects := os1, maxId := d.maxId + 1 }
     match os1.get pageId with
     | none => .ok (d1, .err)
@@ -196,8 +196,8 @@ def addPageContents (d : Doc) (pageId : ObjId) (content : Bytes) : Outcome (Doc 
 
 /-- one editing call -/
 def step (d : Doc) : Op → Outcome (Doc × Out)
-  | .newId => if d.maxId + 1 > U32_MAX then .panic "add" else .ok ({ d with maxId := d.maxId + 1 }, .id (d.maxId + 1, 0))
-  | .add o => if d.maxId + 1 > U32_MAX then .panic "add" else
+  | .newId => if d.maxId + 1 > U32_MAXE then .panic "add" else .ok ({ d with maxId := d.maxId + 1 }, .id (d.maxId + 1, 0))
+  | .add o => if d.maxId + 1 > U32_MAXE then .panic "add" else
       .ok ({ d with maxId := d.maxId + 1, objects := d.objects.insert (d.maxId + 1, 0) o }, .id (d.maxId + 1, 0))
   | .set id o => .ok ({ d with objects := d.objects.insert id o }, .unit)
   | .del id => let r := deleteObject d id; .ok (r.1, .obj r.2)
